@@ -292,3 +292,10 @@ pub proof fn lemma_keep_where_last<T>(s: Seq<T>, keep: Seq<bool>)
 pub fn vx_vec_into_iter<T>(v: Vec<T>) -> (r: VxIter<T>)
     ensures r@ == v@, r@.len() <= usize::MAX   // a Vec holds at most usize::MAX elements
 { unimplemented!() }
+
+/// R-chain target of `IT.collect::<Vec<_>>()` on a VxIter
+pub fn vx_collect_vec<T>(it: VxIter<T>) -> (r: Vec<T>)
+    ensures r@ == it@
+{
+    it.collect_vec()
+}
